@@ -227,7 +227,11 @@ func H_c17(p []int) {
 		// under Unsafe: hook bypassed, everything enveloped
 		vAssert(hookCalls == 0, "C17/hook-bypassed-under-unsafe")
 		if wf {
-			vAssert(bytesEq(delEnv(out), []byte("a  b")), "C17/unsafe-fully-enveloped")
+			lit := ""
+			if d[len(d)-1] == '|' {
+				lit = "|"
+			}
+			vAssert(bytesEq(delEnv(out), []byte("a "+lit+" b")), "C17/unsafe-fully-enveloped")
 		}
 	case pos == 8:
 		vAssert(hookCalls == 0, "C17/no-dispatch-on-unexported-field")
